@@ -60,7 +60,7 @@ def scan_outcome(outs):
     return passed, rejected
 
 
-def run_scan(ctx, body, args, point, extents, order):
+def run_scan(ctx, body, args, point, extents, order, seq=None):
     facts = ctx.facts
     roles = M.EndpointRoles(point, extents)
     unroled = []
@@ -69,8 +69,53 @@ def run_scan(ctx, body, args, point, extents, order):
     I.cmp_oracle = M.make_cmp_oracle(roles, unroled)
     path = A.Path()
     path.tags["order"] = order
+    if seq is not None:
+        path.tags["area_seq"] = list(seq)
     outs = list(I.run(body, args, path))
     return outs, unroled
+
+
+def list_verdict(outs):
+    """list mode: (accepted, followed) -- some path returns success / every path stayed inside the list model"""
+    accepted = any(o.kind == "return" and not is_err(o) for o in outs)
+    followed = not any(o.path.tags.get("list_unsupported") for o in outs) and not any(o.kind == "cut" for o in outs)
+    return accepted, followed
+
+
+def self_reps():
+    """one ordering per relation of the old end to the new end, for the area that is being resized (os == ns)"""
+    reps = {}
+    for o in C08.orderings(True):
+        if o["os"] == o["ns"] and o["os"] < o["oe"]:
+            reps.setdefault((o["oe"] > o["ne"]) - (o["oe"] < o["ne"]), o)
+    return [reps[k] for k in sorted(reps)]
+
+
+def disjoint_reps():
+    """an area entirely below and one entirely above the request"""
+    lo = hi = None
+    for o in C08.orderings(True):
+        if o["os"] < o["oe"] < o["ns"] < o["ne"]:
+            lo = o
+        if o["ns"] < o["ne"] < o["os"] < o["oe"]:
+            hi = o
+    return [lo, hi]
+
+
+def mkargs(body):
+    args = [P.self_ref(True)]
+    seen_start = seen_data = False
+    for i in range(2, body["argc"] + 1):
+        ty = body["locals"][i]
+        if ty == ["u", 64] and not seen_start:
+            args.append(A.W(("start",), 64))
+            seen_start = True
+        elif isinstance(ty, list) and ty[0] == "adt" and ty[1] == "std::vec::Vec" and not seen_data:
+            args.append(("datavec",))
+            seen_data = True
+        else:
+            args.append(("name",) if not isinstance(ty, list) or ty[0] != "u" else A.W(("p%d" % i,), 64))
+    return args
 
 
 def overlap(ctx):
@@ -85,18 +130,7 @@ def overlap(ctx):
       accepted_overlap = []
       rejected_disjoint = []
       for o in C08.orderings(True):
-        args = [P.self_ref(True)]
-        seen_start = seen_data = False
-        for i in range(2, body["argc"] + 1):
-            ty = body["locals"][i]
-            if ty == ["u", 64] and not seen_start:
-                args.append(A.W(("start",), 64))
-                seen_start = True
-            elif isinstance(ty, list) and ty[0] == "adt" and ty[1] == "std::vec::Vec" and not seen_data:
-                args.append(("datavec",))
-                seen_data = True
-            else:
-                args.append(("name",) if not isinstance(ty, list) or ty[0] != "u" else A.W(("p%d" % i,), 64))
+        args = mkargs(body)
         outs, unroled = run_scan(ctx, body, args, ("start",), [("len", ("datavec",))], o)
         total += 1
         passed, rejected = scan_outcome(outs)
@@ -105,7 +139,31 @@ def overlap(ctx):
             accepted_overlap.append(M.fmt_order(o))
         if not ov and rejected and not passed:
             rejected_disjoint.append(M.fmt_order(o))
+      # the same over two-element lists: an area that collides is found wherever it sits in the list
+      list_bad = []
+      nlist = 0
+      rt = body["locals"][0]
+      listed = isinstance(rt, list) and rt[:2] == ["adt", "std::result::Result"]
+      for o in C08.orderings(True) if listed else ():
+          if not M.overlap(o):
+              continue
+          for d in disjoint_reps():
+              for seq in ([d, o], [o, d]):
+                  outs, _u = run_scan(ctx, body, mkargs(body), ("start",), [("len", ("datavec",))], seq[0], seq=seq)
+                  acc, followed = list_verdict(outs)
+                  if not followed:
+                      continue
+                  nlist += 1
+                  if acc:
+                      list_bad.append("[%s | %s]" % (M.fmt_order(seq[0]), M.fmt_order(seq[1])))
+      ck.cov["list_runs:%s" % body["name"]] = nlist
       inst = "api=%s" % body["name"]
+      if list_bad:
+          ck.violation("C10.overlap", inst + ",list", "accepts a colliding area in %d two-area lists (%s)" % (
+              len(list_bad), "; ".join(list_bad[:3])), where=where, witness={"lists": list_bad[:8]},
+              what="the scan for collisions does not look at every area of the list")
+      else:
+          ck.ok("C10.overlap", inst + ",list")
       if accepted_overlap:
           ck.violation("C10.overlap", inst, "accepts %d overlapping orderings (%s)" % (
               len(accepted_overlap), "; ".join(accepted_overlap)), where=where,
@@ -139,6 +197,28 @@ def overlap(ctx):
             acc_ov.append(M.fmt_order(o))
         if not ov and rejected and not passed:
             rej_dis.append(M.fmt_order(o))
+    list_bad = []
+    nlist = 0
+    for o in C08.orderings(True):
+        if o["os"] == o["ns"] or not M.overlap(o):
+            continue
+        for s_ in self_reps():
+            for seq in ([s_, o], [o, s_]):
+                args = [P.self_ref(True), A.W(("start_addr",), 64), A.W(("new_size",), 64)]
+                outs, _u = run_scan(ctx, body, args, ("start_addr",), [("new_size",)], seq[0], seq=seq)
+                acc, followed = list_verdict(outs)
+                if not followed:
+                    continue
+                nlist += 1
+                if acc:
+                    list_bad.append("[%s | %s]" % (M.fmt_order(seq[0]), M.fmt_order(seq[1])))
+    ck.cov["list_runs:mem_resize_section"] = nlist
+    if list_bad:
+        ck.violation("C10.overlap", "api=mem_resize_section,list", "succeeds with a colliding area in %d two-area lists (%s)" % (
+            len(list_bad), "; ".join(list_bad[:3])), where=where, witness={"lists": list_bad[:8]},
+            what="the scan for collisions does not look at every area of the list")
+    else:
+        ck.ok("C10.overlap", "api=mem_resize_section,list")
     inst = "api=mem_resize_section"
     if acc_ov:
         ck.violation("C10.overlap", inst, "passes %d colliding orderings (%s)" % (len(acc_ov), "; ".join(acc_ov[:4])),
@@ -248,8 +328,37 @@ def term(ctx):
     ck.floor("allocator / stack APIs with a retry loop in their private cone", apis_with_loop, 4)
 
 
+def on_every_cycle(b, lp, update_blocks):
+    """every way round the loop passes one of update_blocks: without them the header cannot reach itself"""
+    bl = b["blocks"]
+    nodes = set(lp["nodes"])
+    h = lp["header"] if "header" in lp else None
+    if h is None:
+        return False
+    if h in update_blocks:
+        return True
+    seen = set()
+    todo = [s_ for s_ in F.succs(bl[h]) if s_ in nodes]
+    while todo:
+        n = todo.pop()
+        if n == h:
+            return False
+        if n in seen or n in update_blocks:
+            continue
+        seen.add(n)
+        todo.extend(s_ for s_ in F.succs(bl[n]) if s_ in nodes)
+    return True
+
+
 def variant(b, lp):
-    """find `x >= CONST -> exit` and the update of x inside the loop"""
+    """find `x >= CONST -> exit` and the update of x inside the loop (an update that every way round the loop passes)"""
+    r = variant0(b, lp)
+    if r is not None and r[0] == "ok" and not on_every_cycle(b, lp, r[2]):
+        return None
+    return r[:2] if r is not None and r[0] == "ok" else r
+
+
+def variant0(b, lp):
     bl = b["blocks"]
     nodes = lp["nodes"]
     # loop variable: local compared with a constant by Ge/Gt in the loop
@@ -274,7 +383,7 @@ def variant(b, lp):
                     continue
                 rv = st[2]
                 if rv[0] == "bin" and rv[1] in ("Shl", "ShlUnchecked") and rv[3][0] == "k" and rv[3][1].get("v", 0) >= 1:
-                    return ("ok", "x <<= %d" % rv[3][1]["v"])
+                    return ("ok", "x <<= %d" % rv[3][1]["v"], {n})
                 if rv[0] == "use" and rv[1][0] in ("c", "m") and rv[1][1][1]:
                     # x = move (_t.0) of a checked add
                     tl = rv[1][1][0]
@@ -284,13 +393,13 @@ def variant(b, lp):
                                 inc = s3[2][3]
                                 if inc[0] == "k":
                                     if inc[1].get("v", 0) >= 1:
-                                        return ("ok", "x += %d" % inc[1]["v"])
+                                        return ("ok", "x += %d" % inc[1]["v"], {n})
                                     return ("bad", "x += 0", F.site_str(b, s3[3]))
                                 o = C08.origin(b, inc)
                                 if max_with_positive_const(b, inc):
-                                    return ("ok", "x += max(y, c) with c >= 1")
+                                    return ("ok", "x += max(y, c) with c >= 1", {n})
                                 if positive_guard(b, lp, inc):
-                                    return ("ok", "x += y with y >= 1 guarded")
+                                    return ("ok", "x += y with y >= 1 guarded", {n})
                                 return ("bad", "loop variable advances by %s, which may be zero" % fmt_origin(o),
                                         F.site_str(b, s3[3]))
     return None
